@@ -380,6 +380,9 @@ var refPool = []string{
 	"example.com/o.List[a.com/foo-bar.T]", "example.com/o.Map[string,example.com/x.Own]", "example.com/o.Map[b.org/foo_bar.X,time.Time]",
 	"example.com/o.List[example.com/o.Pair[time.Time,b.org/foo_bar.X]]", "example.com/x.Gen[a.com/foobar.Y,example.com/x.Own]",
 	"example.com/o.List[example.com/o.Pair[example.com/o.Pair[int,string],a.com/foobar.Y]]",
+	// head and argument packages want the same name: the order "arguments first, then the head" decides
+	"b.org/foo_bar.X[a.com/foo-bar.T]", "a.com/foo-bar.List[b.org/foo_bar.X,a.com/foobar.Y]", "k8s.io/api/core/v1.List[k8s.io/api/apps/v1.Deployment]",
+	"example.com/user.Repo[example.com/domain/user.User]",
 	"Foo", "int", "error", "x.y", ".T", "p.L[a",
 }
 
@@ -455,6 +458,19 @@ func (g *gen) richRoot() Snip {
 	return s
 }
 
+func orderVal(zeroA bool) Val {
+	a, b := c10.Named("c10alt.Tag"), c10.Named("c10types.Inner")
+	t := c10.StructOf([]string{"A", "B"}, []c10.TypeJ{a, b})
+	va, vb := c10.NonZero(&a), c10.NonZero(&b)
+	if zeroA {
+		va = c10.ZeroVal(&a)
+	} else {
+		vb = c10.ZeroVal(&b)
+	}
+	v := c10.FieldsVal(va, vb)
+	return Val{T: "c10", CT: &t, CV: &v}
+}
+
 func withSelf(self string, s Snip) Snip { s.Self = self; return s }
 
 // fixed corner cases of the RenderStack stream
@@ -473,6 +489,11 @@ func fixedRich() []Snip {
 		withSelf("verifharness/c10types", value(cv("c10types.Box", true))),
 		withSelf(defaultSelf, value(cv("c10types.Box", true))),
 		withSelf(defaultSelf, value(cv("c10types.Wrap", true))),
+		withSelf(defaultSelf, value(cv("c10alt.Frame", true))),
+		// order of registration inside a value: the type literal of the struct (A's package first) BEFORE the fields
+		// (only B is rendered); both packages are called c10types
+		withSelf(defaultSelf, value(orderVal(true))),
+		withSelf(defaultSelf, value(orderVal(false))),
 		withSelf(defaultSelf, value(cv("c10types.Box", false))),
 		withSelf(defaultSelf, value(cv("c10types.Wrap", false))),
 		withSelf("verifharness/c10types", spf("var _ = %v", varg(cv("c10types.Wrap", false)))),
@@ -481,6 +502,7 @@ func fixedRich() []Snip {
 		// clashing candidate names: the order of rendering decides who gets the short name
 		tpl("@x @y @x", named("x", ref("a.com/foo-bar.T")), named("y", ref("b.org/foo_bar.X"))),
 		tpl("@y @x", named("x", ref("a.com/foo-bar.T")), named("y", ref("b.org/foo_bar.X"))),
+		ref("b.org/foo_bar.X[a.com/foo-bar.T]"),
 		spf("%T|%v|%T", varg(Val{T: "name", S: "a.com/b.T"}), varg(Val{T: "str", S: "a.com/b.T"}), varg(Val{T: "name", S: "c.org/b.T"})),
 		spf("%T %T", varg(Val{T: "name", S: "math/rand.Rand"}), varg(Val{T: "name", S: "crypto/rand.Reader"})),
 		tpl("var _ @t = @v", named("t", ref("example.com/o.Map[b.org/foo_bar.X,time.Time]")), named("v", value(cv("time.Duration", false)))),
